@@ -367,6 +367,7 @@ def new_cases(tier):
 
 
 def malformed_cases(rng, n):
+    # regression witnesses of the repaired non-atomic resize (frame-size-after-rejected-resize)
     out = [(1, 1, 100, 100, [(False, ("H", 0, -5))]),
            (2, 2, 100, 100, [(False, ("W", 0, MAXC))]),
            (2, 2, 100, 100, [(False, ("M", 0, 0, 0, 1)), (False, ("H", 1, MINC)), (False, ("S", 0, 0))])]
@@ -588,3 +589,11 @@ def replay(rec):
     for sig, what, i in oracle(case, io, trace):
         print("oracle: [%s] step %d: %s" % (sig, i, what))
     return 0 if io == mo and not oracle(case, io, trace) else 1
+
+
+CLAIM = {
+    "tech": "Coq proof over a Gallina model of table creation / merge / split / resize (all sizes, all states satisfying the invariant, all operation histories) + extracted-model correspondence on real add_table tables + independent oracle on the real XML",
+    "text": "19 obligations, 15 theorems closed under the global context: a new table has r rows of c cells with widths/heights summing to the request for any remainder; an invariant (rectangular; merged regions pairwise disjoint blocks inside the grid; the four span attributes of EVERY cell are exactly those the regions dictate) is preserved by every operation and every history; a merge is refused with ValueError exactly when its block touches a merged region (or the other cell is foreign), any raised error leaves the state unchanged (rejected resizes included); split resets exactly its region; after a merge the origin holds the non-empty paragraphs of the block in reading order, none lost or duplicated; frame size = sums along every history. The model is tied to pptx.table / pptx.oxml.table by running every merge/split sequence to depth 2 on shapes up to 3x3 (quick; depth 3 up to 4x4 thorough, ~650k sequences), random histories on tables up to 12x12, a creation sweep and a malformed stream on real tables and on the extracted model, comparing every cell's attributes, observers and paragraphs, sizes and frame after every step.",
+    "note": "tables are those made by shapes.add_table (spans >= 1, every cell has a paragraph); int arguments and non-negative indices; lxml tree operations and the attribute simple types are modelled (tied by the correspondence), not verified; paragraph text is observed through _Paragraph.text, run structure is C04's.",
+    "ref": "6/C14",
+}
